@@ -93,7 +93,8 @@ fn c16_ws_offreader(case: &Case) {
     net::reset(draw_net());
     let cap = pick(&[1usize, 1, 2, 2, 3, 3, 4, 8, 16, 0]);
     let effective = if cap == 0 { usize::MAX } else { cap };
-    let n_first = if cap == 0 { range(1, 12) as usize } else { range(1, (4 * cap as u32).min(24)) as usize };
+    // "unlimited" really is unlimited: sometimes far more handlers than any default cap
+    let n_first = if cap == 0 { pick(&[range(1, 12), range(12, 24), range(30, 48)]) as usize } else { range(1, (4 * cap as u32).min(24)) as usize };
     let with_mw = simkernel::choose(3) == 0;
     // phase-1 messages
     let mut msgs: Vec<Msg> = Vec::new();
